@@ -235,7 +235,16 @@ func main() {
 	for _, g := range specs {
 		e := &emitter{}
 		fmt.Fprintf(&e.b, "(* GENERATED by tools/goparams from /repo on every run. Do not edit. *)\nFrom Coq Require Import ZArith List String.\nImport ListNotations.\nLocal Open Scope Z_scope.\n\n")
-		g.gen(*repo, e)
+		func() {
+			// a spec that trips over source it does not expect must not take the other
+			// properties' ties down with it: its panic is that spec's translator error
+			defer func() {
+				if r := recover(); r != nil {
+					e.errs = append(e.errs, fmt.Sprintf("translator panic: %v", r))
+				}
+			}()
+			g.gen(*repo, e)
+		}()
 		path := filepath.Join(*out, g.file)
 		if len(e.errs) > 0 {
 			failed = true
